@@ -21,14 +21,18 @@ Expected(e) ==
     [] e.op = "newaxis"   -> Ok(NewAxis(e.in.a, e.in.name, e.in.i, e.in.vals))
     [] e.op = "squeeze"   -> Ok(Squeeze(e.in.a, e.in.i))
     [] e.op = "reindex"   -> Reindex(e.in.a, e.in.d, e.in.new, e.in.a.kinds[e.in.d], e.in.fill, e.in.fkind, e.in.raise, e.in.method)
+    [] e.op = "reduce"    -> Ok(Reduce(e.in.a, e.in.red, e.in.skipna))
 
+\* results of computing operations carry terms: their values are evaluated by the harness from the fibres printed below
+Computed(x) == x.ok /\ Len(x.val.cells) > 0 /\ DOMAIN x.val.cells[1] = {"fib", "nan"}
 Clause(x, y) ==      \* first disagreeing clause between expected x and logged y (both outcome records)
   IF x.ok # y.ok THEN "outcome"
   ELSE IF ~x.ok THEN (IF x.err = y.err THEN "ok" ELSE "exception")
   ELSE IF x.val.dims # y.val.dims THEN "dims"
   ELSE IF x.val.labs # y.val.labs THEN "labels"
-  ELSE IF x.val.cells # y.val.cells THEN "cells"
-  ELSE IF x.val.dtype # y.val.dtype THEN "dtype"
+  ELSE IF Len(x.val.cells) # Len(y.val.cells) THEN "size"
+  ELSE IF ~Computed(x) /\ x.val.cells # y.val.cells THEN "cells"
+  ELSE IF ~Computed(x) /\ x.val.dtype # y.val.dtype THEN "dtype"
   ELSE IF x.val.attrs # y.val.attrs THEN "attrs"
   ELSE IF x.val.aattrs # y.val.aattrs THEN "axis attrs"
   ELSE "ok"
@@ -38,7 +42,7 @@ TNext == /\ ~done /\ done' = TRUE /\ l' = l
          /\ LET e == Events[l]
                 x == Expected(e)
                 c == Clause(x, e.out)
-            IN IF c = "ok" THEN PrintT(<<"T", e.id>>)
+            IN IF c = "ok" THEN (IF Computed(x) THEN PrintT(<<"F", e.id, ToJson(x.val.cells)>>) ELSE PrintT(<<"T", e.id>>))
                ELSE PrintT(<<"X", e.id, c, ToJson(x)>>)
 TSpec == TInit /\ [][TNext]_tvars
 =============================================================================
